@@ -19,10 +19,15 @@ META = {
              "backend) pairs, decodes backend-independently and emits no 0x0A/0x0D without indent - for ALL values, under eight explicit "
              "contracts on the four codecs; (2) a concrete reference codec (compact/spaced separators, raw-UTF-8 and \\uXXXX+surrogate-pair "
              "escaping, strict RFC 8259 recursive-descent decoder, strict UTF-8) is proved to emit no byte < 0x20 - hence no raw line "
-             "break - for every value and every policy (JsonEnc_no_control_byte, JsonEnc_single_frame). NOT proved: that the reference "
-             "decoder inverts the reference encoder and that the reference codec satisfies the eight contracts - both are TESTED on every "
-             "run (the reference instantiation of the wrapper is compared byte-for-byte with the real fast_json in worker processes with "
-             "and without orjson importable, and the contracts are tested against the raw orjson / json codecs).",
+             "break - for every value and every policy (JsonEnc_no_control_byte, JsonEnc_single_frame); (3) the reference decoder "
+             "inverts the reference encoder for every policy and every well-formed value (strings/keys Unicode scalar values, each float's "
+             "text a float token that the float reader gives back, integers unbounded), on texts and on UTF-8 bytes, with the fuel bound "
+             "size v <= length text made explicit (JsonEnc_roundtrip_fuel, JsonEnc_roundtrip, JsonEnc_roundtrip_bytes); (4) the reference "
+             "instantiation of the four codecs satisfies the eight contracts whenever no float text has a character < 0x20 "
+             "(C17_reference_codec_satisfies_contracts), and a concrete instance with RFC 8259 float tokens inhabits them on a nested "
+             "sample value (C17_nonvacuous). NOT proved, TESTED on every run: that the REAL orjson / json codecs satisfy the contracts "
+             "(the reference instantiation of the wrapper is compared byte-for-byte with the real fast_json in worker processes with and "
+             "without orjson importable, and the contracts are tested against the raw orjson / json codecs).",
     "note": "Partial by nature: orjson and the stdlib json codec are opaque C/Rust code; the proof covers chuk-mcp's wrapper and the "
             "reference codec, the contracts linking them to the real codecs are empirical (tested on the generated values and on mutated "
             "texts each run). Floats are opaque (formatter/reader are oracles); domain = lone-surrogate-free strings, finite floats, "
@@ -33,7 +38,8 @@ META = {
 }
 GEN: list = []
 TARGETS = ["Base/JsonVal", "Model/JsonEnc", "Model/FastJson", "Spec/C17", "Proofs/JsonVal", "Proofs/JsonEncClean",
-           "Proofs/FastJson", "Props/C17"]
+           "Proofs/FastJson", "Proofs/JsonEncRoundUtf8", "Proofs/JsonEncRoundInt", "Proofs/JsonEncRoundStr",
+           "Proofs/JsonEncRoundVal", "Proofs/JsonEncRoundContracts", "Props/C17"]
 
 TRUSTED = [
     "Coq 8.16.1 kernel (coqc); coqchk re-check in the thorough tier; no vm_compute/native_compute in the C17 theorems",
